@@ -256,7 +256,30 @@ def r9_2(ctx):
         ctx.bad("R9.2", ls.module, ls.qual, "server.db.query(query, (mbox_re,))", "pattern no longer passed as a bound parameter", ls.node.lineno)
 
 
+def r9_3(ctx):
+    """The mail directory itself ('.') is not addressable as a mailbox (DELETE . would rmtree the whole root)."""
+    p = ctx.p
+    pm = p.func("parse.IMAPClientCommand._p_mailbox")
+    okv = False
+    for n in body_walk(pm.node):
+        if isinstance(n, ast.If) and any(isinstance(x, ast.Raise) for s in n.body for x in walk_no_nested(s)):
+            for c in ast.walk(n.test):
+                if isinstance(c, ast.Compare) and len(c.ops) == 1 and isinstance(c.ops[0], (ast.Eq, ast.In)):
+                    consts = [x.value for x in ast.walk(c) if isinstance(x, ast.Constant) and isinstance(x.value, str)]
+                    if "." in consts:
+                        okv = True
+    gm = p.func("user_server.IMAPUserServer.get_mailbox")
+    for n in body_walk(gm.node):
+        if isinstance(n, ast.If) and any(isinstance(x, ast.Raise) for s in n.body for x in walk_no_nested(s)) and "'.'" in norm(n.test):
+            okv = True
+    if okv:
+        ctx.ok("R9.3", where(pm), "the name '.' (the mail directory itself) is refused")
+    else:
+        ctx.bad("R9.3", pm.module, pm.qual, "name == '.'", "the mail directory itself ('.', './.', 'a/..') is accepted as a mailbox name: SELECT/DELETE/CREATE then operate on the root (`DELETE .` removes every mailbox and the database)", pm.node.lineno)
+
+
 def run(ctx):
+    r9_3(ctx)
     r9_1(ctx)
     r9_2(ctx)
     ctx.trust("sink table: " + ", ".join(sorted(SINK_CALLS)) + ", `maildir / x`")
